@@ -40,12 +40,14 @@ package domutil
 //@   ensures [C04] #aria-hidden-means-invisible implies(dom.GetAttribute(node, "aria-hidden") == "true", !result)
 //@   ensures [C04] #hidden-means-invisible implies(GetDisplayStyle(node) == "none" || dom.HasAttribute(node, "hidden") || rxVisibilityHidden.MatchString(dom.GetAttribute(node, "style")), !result)
 
+// (display is the local holding the inline declaration found, "" if there is none: the declaration syntax itself --
+// !important, letter case, last declaration wins -- is decided by the bounded harness, regexps being uninterpreted.)
 //@ func GetDisplayStyle(node)
 //@   requires node != nil
 //@   pure
 //@   reads localrows html.Node.Attr, local html.Node.Type, local html.Node.Data, cell(Ref)
-//@   ensures [C04] #non-rendered-tags implies(!rxMatches(rxDisplay, dom.GetAttribute(node, "style")) && (dom.TagName(node) == "script" || dom.TagName(node) == "style" || dom.TagName(node) == "meta" || dom.TagName(node) == "link"), result == "none")
-//@   ensures [C03] #inline-tags implies(!rxMatches(rxDisplay, dom.GetAttribute(node, "style")) && (dom.TagName(node) == "b" || dom.TagName(node) == "i" || dom.TagName(node) == "em" || dom.TagName(node) == "strong" || dom.TagName(node) == "span" || dom.TagName(node) == "u" || dom.TagName(node) == "code" || dom.TagName(node) == "font" || dom.TagName(node) == "a"), result == "inline")
+//@   ensures [C04] #non-rendered-tags implies(display == "" && (dom.TagName(node) == "script" || dom.TagName(node) == "style" || dom.TagName(node) == "meta" || dom.TagName(node) == "link"), result == "none")
+//@   ensures [C03] #inline-tags implies(display == "" && (dom.TagName(node) == "b" || dom.TagName(node) == "i" || dom.TagName(node) == "em" || dom.TagName(node) == "strong" || dom.TagName(node) == "span" || dom.TagName(node) == "u" || dom.TagName(node) == "code" || dom.TagName(node) == "font" || dom.TagName(node) == "a"), result == "inline")
 
 //@ func GetOutputNodes$1(node)
 //@   requires node != nil && outputNodes != nil
